@@ -626,9 +626,55 @@ def allowed_strings_for(P, F, subj):
 
 
 # ------------------------------------------------------------------------------------------------
+def dead_default(P, F, x):
+    """the throw sits under the `default:` of a switch over a local integer that is only ever given literal values, all of
+    which have their own case label: no execution reaches it"""
+    sw = astq.enclosing(F, x, ("SwitchStmt",))
+    if sw is None:
+        return False
+    cases = astq.switch_cases(sw)
+    dflt = cases.get("default")
+    if dflt is None or not any(y is x for st in dflt for y in F.walk(st)):
+        return False
+    # ... and under no other label (fall-through into the default)
+    for lb, stmts in cases.items():
+        if lb != "default" and any(y is x for st in stmts for y in F.walk(st)):
+            return False
+    cond = sc(sw["c"][0]) if sw.get("c") else None
+    cond = [y for y in (sw.get("c") or []) if y is not None and y.get("k") not in ("CompoundStmt", "DeclStmt")]
+    if not cond:
+        return False
+    v = norm.strip_casts(cond[0])
+    if v is None or v.get("k") != "DeclRefExpr" or P.d(v["r"]).get("storage") != "local" or v["r"] in F.params:
+        return False
+    key = v["r"]
+    vals = set()
+    for y in F.walk():
+        if y.get("k") == "VarDecl" and y.get("r") == key:
+            i0 = norm.strip_casts(y["c"][0]) if y.get("c") else None
+            if i0 is None or i0.get("k") != "IntegerLiteral":
+                return False
+            vals.add(int(i0["v"]))
+        elif y.get("k") in ("BinaryOperator", "CompoundAssignOperator") and y.get("op") in norm.ASSIGN_OPS and astq.is_ref_to(y["c"][0], key):
+            r0 = norm.strip_casts(y["c"][1])
+            if y.get("op") != "=" or r0 is None or r0.get("k") != "IntegerLiteral":
+                return False
+            vals.add(int(r0["v"]))
+        elif y.get("k") == "UnaryOperator" and y.get("op") in ("++", "--", "&") and astq.is_ref_to(y["c"][0], key):
+            return False
+    labels = set()
+    for lb in cases:
+        try:
+            labels.add(int(lb))
+        except Exception:
+            pass
+    return bool(vals) and vals <= labels
+
+
 def throw_types(P, rep, R, rule="A5", floor=30):
     rep.rule(rule, "every throw reachable from the query roots (and from World construction) throws a type derived from std::exception")
     n = 0
+    dead = 0
     for k in sorted(R):
         F = P.funcs.get(k)
         if F is None:
@@ -641,9 +687,12 @@ def throw_types(P, rep, R, rule="A5", floor=30):
                     continue   # rethrow
                 if re.search(r"std::(runtime_error|logic_error|invalid_argument|out_of_range|exception|domain_error|length_error|range_error|overflow_error|bad_alloc)", t):
                     continue
+                if dead_default(P, F, x):
+                    dead += 1
+                    continue
                 rep.violation(rule, "%s throws %s" % (F.qn, t or "?"), F.nloc(x), F.qn, norm.render(P, x), "not a standard exception",
                               key="%s|%s|%s" % (rule, F.qn, t), witness="the input that triggers this throw")
-    rep.ok(rule, "%d throw expressions, all of std::exception-derived types" % n)
+    rep.ok(rule, "%d throw expressions, all of std::exception-derived types%s" % (n, (" (%d in a switch default that no value of the switched local reaches)" % dead) if dead else ""))
     rep.floor(rule, n, floor, "throw expressions")
 
 
